@@ -8,7 +8,7 @@ Definition total (s : st) : list N := buf s ++ pend s ++ stream_of (orc s).
 
 (* sockets: byte stream or datagrams within the documented bound; no serial-port buffer *)
 Definition kwf (k : kind) (s : st) : Prop :=
-  match k with Sock c => wf c (orc s) /\ pend s = [] | Serial => True end.
+  match k with Sock c => wf c (orc s) /\ pend s = [] | Serial _ => True end.
 
 Lemma smoved_total s s' out : smoved s s' out -> out ++ total s' = total s.
 Proof.
@@ -19,11 +19,11 @@ Lemma ret_nil_app r : ret r ++ [] = ret r.
 Proof. apply app_nil_r. Qed.
 
 Lemma write_spec k d s s' r :
-  (match k with Sock _ => sock_write d s | Serial => ser_write d s end) = (s', r) ->
+  (match k with Sock _ => sock_write d s | Serial _ => ser_write d s end) = (s', r) ->
   is_open s' = is_open s /\ buf s' = buf s /\ pend s' = pend s /\ orc s' = orc s /\ clk s' = clk s /\
   (is_open s = false -> s' = s /\ r = RInvalid) /\
   (is_open s = true -> r = RNone /\
-     dlog s' = match k with Sock _ => [DSend d; DSetTmo None] | Serial => [DSend d] end ++ dlog s).
+     dlog s' = match k with Sock _ => [DSend d; DSetTmo None] | Serial _ => [DSend d] end ++ dlog s).
 Proof.
   destruct k; unfold sock_write, ser_write; destruct (is_open s) eqn:E; intros [= <- <-]; sim;
     repeat split; auto; discriminate.
@@ -33,7 +33,7 @@ Lemma step_raw_spec k s o s' r d :
   step_raw k s o = (s', r, d) -> kwf k s ->
   kwf k s' /\ smoved s s' (ret r ++ d) /\ (forall c, k = Sock c -> r <> RFuel) /\ r <> RRuntime.
 Proof.
-  intros H W. destruct k as [c|]; cbn [kwf] in *.
+  intros H W. destruct k as [c|sc]; cbn [kwf] in *.
   - destruct W as [W P].
     destruct o as [| |n t|tm t|n t| |wd]; cbn [step_raw] in H; unfold nodrop in H.
     + apply sock_open_spec in H as (H1 & H2 & H3 & H4 & H5 & H6).
@@ -78,19 +78,19 @@ Proof.
       assert (ret r = [] /\ r <> RRuntime) as [-> ?].
       { destruct (is_open s); [destruct H6 as (-> & _) | destruct H5 as (_ & ->)]; auto; split; auto; discriminate. }
       repeat split; auto; try discriminate. apply smoved_refl; congruence.
-    + destruct (ser_read_op n t s) as [s1 r1] eqn:E. inversion H; subst.
+    + destruct (ser_read_op sc n t s) as [s1 r1] eqn:E. inversion H; subst.
       apply ser_read_op_spec in E as (H1 & H2 & H3 & H4 & H5 & H6 & H7 & H8 & _).
       rewrite app_nil_r. repeat split; auto; discriminate.
-    + destruct (ser_read_until tm t s) as [s1 r1] eqn:E. inversion H; subst.
-      apply ser_read_until_spec in E as (H1 & H2 & H3 & H4 & H5 & H6 & H7 & _).
+    + destruct (ser_read_until sc tm t s) as [s1 r1] eqn:E. inversion H; subst.
+      apply ser_read_until_spec in E as (H1 & H2 & H3 & H4 & H5 & H6 & H7).
       rewrite app_nil_r. repeat split; auto; discriminate.
-    + destruct (ser_rut n t s) as [s1 r1] eqn:E. inversion H; subst.
+    + destruct (ser_rut sc n t s) as [s1 r1] eqn:E. inversion H; subst.
       apply ser_rut_spec in E as (H1 & H2 & H3 & H4 & H5 & H6 & H7 & _).
       rewrite app_nil_r. repeat split; auto; discriminate.
     + apply ser_discard_spec in H as (H1 & H2 & H3 & _).
       repeat split; auto; try discriminate. destruct H3 as [-> | ->]; discriminate.
     + destruct (ser_write wd s) as [s1 r1] eqn:E. inversion H; subst.
-      apply (write_spec Serial) in E as (H1 & H2 & H3 & H4 & H5 & H6 & H7).
+      apply (write_spec (Serial sc)) in E as (H1 & H2 & H3 & H4 & H5 & H6 & H7).
       assert (ret r = [] /\ r <> RRuntime) as (-> & ?).
       { destruct (is_open s); [destruct H7 as (-> & _) | destruct H6 as (_ & ->)]; auto; split; auto; discriminate. }
       repeat split; auto; try discriminate. apply smoved_refl; congruence.
@@ -140,7 +140,7 @@ Lemma run_conservation_init k o t0 ops s' outs :
 Proof.
   intros W H. apply run_conservation in H as [H _].
   - exact H.
-  - destruct k as [c|]; [apply init_kwf_sock, W; reflexivity | exact I].
+  - destruct k as [c|sc]; [apply init_kwf_sock, W; reflexivity | exact I].
 Qed.
 
 (* bytes are thrown away only by discard_read and (sockets) by open *)
@@ -154,32 +154,32 @@ Qed.
 Lemma read_exact k s n t s' x b :
   kwf k s -> step k s (OpRead n t) = (s', x) -> o_res x = RBytes b -> len b = n.
 Proof.
-  intros W H R. apply step_unfold in H as [H _]. destruct k as [c|]; cbn [step_raw] in H; unfold nodrop in H.
+  intros W H R. apply step_unfold in H as [H _]. destruct k as [c|sc]; cbn [step_raw] in H; unfold nodrop in H.
   - destruct W as [W _]. destruct (sock_read c n t s) as [s1 r1] eqn:E. inversion H; subst.
     apply sock_read_spec in E; [|exact W]. destruct E as (_ & _ & _ & _ & K5 & _). auto.
-  - destruct (ser_read_op n t s) as [s1 r1] eqn:E. inversion H; subst.
+  - destruct (ser_read_op sc n t s) as [s1 r1] eqn:E. inversion H; subst.
     apply ser_read_op_spec in E as (_ & _ & K3 & _). auto.
 Qed.
 
 Lemma read_until_shortest k s tm t s' x b :
   kwf k s -> step k s (OpReadUntil tm t) = (s', x) -> o_res x = RBytes b -> shortest tm b.
 Proof.
-  intros W H R. apply step_unfold in H as [H _]. destruct k as [c|]; cbn [step_raw] in H; unfold nodrop in H.
+  intros W H R. apply step_unfold in H as [H _]. destruct k as [c|sc]; cbn [step_raw] in H; unfold nodrop in H.
   - destruct W as [W _]. destruct (sock_read_until c tm t s) as [s1 r1] eqn:E. inversion H; subst.
     apply sock_read_until_spec in E; [|exact W]. destruct E as (_ & _ & _ & _ & K5 & _). auto.
-  - destruct (ser_read_until tm t s) as [s1 r1] eqn:E. inversion H; subst.
+  - destruct (ser_read_until sc tm t s) as [s1 r1] eqn:E. inversion H; subst.
     apply ser_read_until_spec in E as (_ & _ & K3 & _). auto.
 Qed.
 
 Lemma rut_len k s n t s' x b :
   kwf k s -> step k s (OpRut n t) = (s', x) -> o_res x = RBytes b ->
-  match k with Sock c => rut_slice c = true \/ minp c = 0%N | Serial => True end ->
+  match k with Sock c => rut_slice c = true \/ minp c = 0%N | Serial _ => True end ->
   (len b <= n)%N.
 Proof.
-  intros W H R C. apply step_unfold in H as [H _]. destruct k as [c|]; cbn [step_raw] in H; unfold nodrop in H.
+  intros W H R C. apply step_unfold in H as [H _]. destruct k as [c|sc]; cbn [step_raw] in H; unfold nodrop in H.
   - destruct W as [W _]. destruct (sock_rut c n t s) as [s1 r1] eqn:E. inversion H; subst.
     apply sock_rut_spec in E; [|exact W]. destruct E as (_ & _ & _ & _ & K5 & _). auto.
-  - destruct (ser_rut n t s) as [s1 r1] eqn:E. inversion H; subst.
+  - destruct (ser_rut sc n t s) as [s1 r1] eqn:E. inversion H; subst.
     apply ser_rut_spec in E as (_ & _ & K3 & _). auto.
 Qed.
 
@@ -213,27 +213,35 @@ Lemma closed_step k s o s' x :
   | OpReadUntil tm _ =>
       orc s' = orc s /\ clk s' = clk s /\ pend s' = pend s /\ o_calls x = [] /\
       ((s' = s /\ o_res x = RInvalid) \/
-       (exists c b, k = Sock c /\ o_res x = RBytes b /\ b ++ buf s' = buf s /\ is_open s' = false))
+       (exists b, o_res x = RBytes b /\ b ++ buf s' = buf s /\ is_open s' = false))
   | _ => s' = s /\ o_res x = RInvalid /\ o_dropped x = [] /\ o_calls x = []
   end.
 Proof.
   intros C H. apply step_unfold in H as [H Hc]. rewrite Hc.
-  destruct k as [c|], o as [| |n t|tm t|n t| |wd]; cbn [step_raw] in H; unfold nodrop in H.
+  destruct k as [c|sc], o as [| |n t|tm t|n t| |wd]; cbn [step_raw] in H; unfold nodrop in H.
   - unfold sock_open in H. rewrite C in H. inversion H; subst; sim. auto.
   - unfold do_close in H. rewrite C in H. cbn in H. inversion H; subst. rewrite new_calls_same; auto.
   - unfold sock_read in H. rewrite C in H. cbn in H. inversion H; subst. rewrite new_calls_same; auto.
-  - unfold sock_read_until in H. destruct (cut_term tm s) as [[sc rc]|] eqn:Ec.
+  - unfold sock_read_until in H. rewrite C in H. cbn [negb] in H.
+    destruct (ru_chk_first (cpol c)); cbn [andb] in H.
+    { cbn in H. inversion H; subst. rewrite new_calls_same; auto. repeat split; auto. }
+    destruct (cut_term tm s) as [[sc0 rc]|] eqn:Ec.
     + cbn in H. inversion H; subst. apply cut_term_Some in Ec as (bb & rest & E1 & _ & Hcat & ->). sim.
-      rewrite new_calls_same by reflexivity. repeat split; auto. right. exists c, bb. sim. auto.
-    + rewrite C in H. cbn in H. inversion H; subst. rewrite new_calls_same; auto. repeat split; auto.
+      rewrite new_calls_same by reflexivity. repeat split; auto. right. exists bb. sim. auto.
+    + cbn in H. inversion H; subst. rewrite new_calls_same; auto. repeat split; auto.
   - unfold sock_rut, sock_read in H. rewrite C in H. cbn in H. inversion H; subst. rewrite new_calls_same; auto.
   - unfold sock_discard in H. rewrite C in H. inversion H; subst. rewrite new_calls_same; auto.
   - unfold sock_write in H. rewrite C in H. cbn in H. inversion H; subst. rewrite new_calls_same; auto.
   - unfold ser_open in H. rewrite C in H. inversion H; subst; sim. auto.
   - unfold do_close in H. rewrite C in H. cbn in H. inversion H; subst. rewrite new_calls_same; auto.
   - unfold ser_read_op in H. rewrite C in H. cbn in H. inversion H; subst. rewrite new_calls_same; auto.
-  - unfold ser_read_until in H. rewrite C in H. cbn in H. inversion H; subst. rewrite new_calls_same; auto.
-    repeat split; auto.
+  - unfold ser_read_until in H. rewrite C in H. cbn [negb] in H.
+    destruct (ru_chk_first (spol sc)).
+    { cbn in H. inversion H; subst. rewrite new_calls_same; auto. repeat split; auto. }
+    destruct (cut_term tm s) as [[sc0 rc]|] eqn:Ec.
+    + cbn in H. inversion H; subst. apply cut_term_Some in Ec as (bb & rest & E1 & _ & Hcat & ->). sim.
+      rewrite new_calls_same by reflexivity. repeat split; auto. right. exists bb. sim. auto.
+    + cbn in H. inversion H; subst. rewrite new_calls_same; auto. repeat split; auto.
   - unfold ser_rut, ser_read_op in H. rewrite C in H. cbn in H. inversion H; subst. rewrite new_calls_same; auto.
   - unfold ser_discard in H. rewrite C in H. inversion H; subst. rewrite new_calls_same; auto.
   - unfold ser_write in H. rewrite C in H. cbn in H. inversion H; subst. rewrite new_calls_same; auto.
